@@ -7,8 +7,11 @@ package wal
 import (
 	etcdRaft "github.com/coreos/etcd/raft"
 	"github.com/coreos/etcd/raft/raftpb"
+	badger "github.com/dgraph-io/badger/v2"
 	uuid "github.com/satori/go.uuid"
 )
+
+var _ = badger.ErrKeyNotFound
 
 var _ uuid.UUID
 var _ = etcdRaft.ErrCompacted
@@ -71,9 +74,30 @@ var _ raftpb.Entry
 // new entry, the last index becomes that entry's). For a contiguous batch: every entry at or above the first index is written,
 // under the key of its own index, with its own encoding, nothing else is written; the cached last index becomes the last
 // entry's index exactly when something was written; the tail behind it is cut (from last+1) exactly when the log was longer.
+// the last index: the cached value when one is cached, otherwise the index of the greatest stored key (a reverse seek from the
+// greatest possible index), and the store's error when nothing is stored
 //@ func (*storage/wal.badgerWAL).LastIndex
 //@ props C06
-//@ assume
+//@ safety UNCLAIMED
+//@ ghost cachedLastV uint64 = 0
+//@ ghost lastHit int = 0
+//@ ghost sought int = 0
+//@ ghost soughtIdx uint64 = 0
+//@ ghost soughtErr error = nil
+//@ at call (*sync.Map).Load
+//@ requires [C06 reads-the-last-index-slot] $arg1.(string) == cacheLastIndexKey && sought == 0
+//@ set lastHit = ite($ret1 && istype($ret0, uint64), 1, 0)
+//@ set cachedLastV = $ret0.(uint64)
+//@ end
+//@ at call badgerWAL).seekEntry
+//@ requires [C06 greatest-stored-key] lastHit == 0 && $arg0 == this && $arg1 == nil && $arg2 == 18446744073709551615 && $arg3 && sought == 0
+//@ set sought = 1
+//@ set soughtIdx = $ret0
+//@ set soughtErr = $ret1
+//@ end
+//@ requires [wal] this != nil && this.db != nil && this.cache != nil
+//@ ensures [C06 cached-last-index-is-the-answer] lastHit == 1 ==> ret0 == cachedLastV && isnil(ret1) && sought == 0
+//@ ensures [C06 otherwise-the-greatest-stored-key] lastHit == 0 ==> sought == 1 && ret0 == soughtIdx && ret1 == soughtErr
 //@ modifies * except type badgerWAL.cache; type badgerWAL.db; type badgerWAL.groupId; mem[raftpb.Entry]
 //@ func (*storage/wal.badgerWAL).writeEntries
 //@ props C06
@@ -122,10 +146,33 @@ var _ raftpb.Entry
 //@ invariant [kept-entries-at-or-above-first] forall i int :: 0 <= i && i < len(entries) ==> entries[i].Index >= first
 //@ invariant [same-last] len(entries) >= 1 && entries[len(entries) - 1].Index == old(entries[len(entries) - 1].Index)
 //@ invariant [kept-count] len(entries) == ite(first > old(entries[0].Index), old(len(entries)) - (first - old(entries[0].Index)), old(len(entries)))
-//@ func (*storage/wal.badgerWAL).writeHardState
+//@ func (*github.com/coreos/etcd/raft/raftpb.HardState).Marshal
 //@ props C06
 //@ assume
-//@ modifies * except type badgerWAL.cache; type badgerWAL.db; mem[raftpb.Entry]
+//@ modifies nothing
+// the hard state: an empty one is not written (raft hands an empty hard state when nothing changed: writing it would wipe the
+// vote and term), any other is written once, into the given batch, under this group's hard-state key, as its own encoding
+//@ func (*storage/wal.badgerWAL).writeHardState
+//@ props C06
+//@ safety UNCLAIMED
+//@ ghost hsData []byte = nil
+//@ ghost hsKey []byte = nil
+//@ ghost hsWritten int = 0
+//@ at call HardState).Marshal
+//@ requires [C06 encodes-the-given-hard-state] *$arg0 == hardState
+//@ set hsData = $ret0
+//@ end
+//@ at call badgerWAL).hardStateKey
+//@ set hsKey = $ret0
+//@ end
+//@ at call WriteBatch).Set
+//@ requires [C06 hard-state-under-its-key] $arg0 == batch && $arg1 == hsKey && $arg2 == hsData && hsWritten == 0
+//@ set hsWritten = 1
+//@ end
+//@ requires [wal] this != nil && batch != nil
+//@ ensures [C06 empty-hard-state-not-written] hardState.Term == 0 && hardState.Vote == 0 && hardState.Commit == 0 ==> hsWritten == 0 && isnil(ret)
+//@ ensures [C06 hard-state-written] isnil(ret) && !(hardState.Term == 0 && hardState.Vote == 0 && hardState.Commit == 0) ==> hsWritten == 1
+//@ modifies nothing
 // writeSnapshot may raise a cached last index, but must not create one: the snapshot index is the last index only when the
 // log holds nothing behind it, which this function cannot know (a cold cache is filled from the disk by LastIndex)
 //@ func (*storage/wal.badgerWAL).writeSnapshot
@@ -158,10 +205,58 @@ var _ raftpb.Entry
 //@ props C06
 //@ assume
 //@ modifies nothing
+// cutting the log from an index on: the scan is bounded by this group's key prefix, starts at the key of the given index, runs
+// (in the library's default direction: forward) to the end of the prefix, and every key it meets - exactly those, under their own bytes, in order - is queued for deletion
+//@ ufunc scanKey(int) string
 //@ func (*storage/wal.badgerWAL).deleteEntriesFromIndex
 //@ props C06
-//@ assume
+//@ safety UNCLAIMED
+//@ ghost prefix []byte = nil
+//@ ghost skKey []byte = nil
+//@ ghost skIdx uint64 = 0
+//@ ghost opened int = 0
+//@ ghost positioned int = 0
+//@ ghost lastValid int = 1
+//@ ghost seen int = 0
+//@ ghost queued int = 0 - 1
+//@ at call badgerWAL).entryPrefix
+//@ set prefix = $ret0
+//@ end
+//@ at call Txn).NewIterator
+//@ requires [C06 scan-bounded-by-this-groups-prefix] $arg1.Prefix == prefix && $arg1.Reverse == badger.DefaultIteratorOptions.Reverse && opened == 0
+//@ set opened = 1
+//@ end
+//@ at call badgerWAL).entryKey
+//@ set skKey = $ret0
+//@ set skIdx = $arg1
+//@ end
+//@ at call Iterator).Seek
+//@ requires [C06 scan-starts-at-the-given-index] opened == 1 && $arg1 == skKey && skIdx == *fromIdx && positioned == 0
+//@ set positioned = 1
+//@ end
+//@ at call Iterator).Valid
+//@ set lastValid = ite($ret0, 1, 0)
+//@ end
+//@ at call Item).Key
+//@ assume [ghost: the i-th key the scan met] scanKey(seen) == string($ret0)
+//@ set seen = seen + 1
+//@ end
+//@ at call badgerWAL).deleteKeys
+//@ requires [C06 deletes-exactly-what-the-scan-met] $arg1 == batch && queued == 0 - 1 && len($arg2) == seen && (forall i int :: 0 <= i && i < len($arg2) ==> $arg2[i] == scanKey(i))
+//@ set queued = len($arg2)
+//@ end
+//@ requires [wal] this != nil && this.db != nil && batch != nil
+//@ ensures [C06 scan-runs-to-the-end] isnil(ret) ==> positioned == 1 && lastValid == 0
+//@ ensures [C06 every-key-met-is-queued] isnil(ret) ==> queued == seen
 //@ modifies * except type badgerWAL.cache; type badgerWAL.db; mem[raftpb.Entry]
+
+//@ func (*storage/wal.badgerWAL).deleteEntriesFromIndex$1
+//@ inline
+//@ props C06
+//@ loop 1
+//@ invariant [own-list] cap(*keys) == 0 || fresh(*keys)
+//@ invariant [C06 every-key-so-far-kept] len(*keys) == seen && seen >= 0 && positioned == 1
+//@ invariant [C06 kept-under-their-own-bytes] forall i int :: 0 <= i && i < len(*keys) ==> (*keys)[i] == scanKey(i)
 //@ func (*github.com/dgraph-io/badger/v2.DB).NewWriteBatch
 //@ props C06
 //@ assume
@@ -299,22 +394,128 @@ var _ raftpb.Entry
 // first stored key, so: the marker/snapshot is written for exactly the requested index with the term of the stored entry, and
 // the compaction queued in the same batch reaches exactly up to the snapshot index (an entry left in front of the marker
 // would be replayed on top of the restored snapshot after a restart - C03 - and moves FirstIndex after a reopen - C06).
+// looking up a stored entry: the scan is bounded by this group's key prefix and runs in the asked direction, it is positioned
+// at the key of the asked index, nothing under the iterator is an error (never index 0 with a nil error), otherwise the answer is
+// the index parsed from the key the iterator landed on, and the stored bytes are decoded into the caller's entry when one is given
 //@ func (*storage/wal.badgerWAL).seekEntry
 //@ props C06 C03
-//@ assume
-//@ ensures [found] isnil(ret1) && entry != nil ==> true
+//@ safety UNCLAIMED
+//@ ghost prefix []byte = nil
+//@ ghost skKey []byte = nil
+//@ ghost skIdx uint64 = 0
+//@ ghost opened int = 0
+//@ ghost positioned int = 0
+//@ ghost valid int = 0
+//@ ghost landedKey []byte = nil
+//@ ghost landedIdx uint64 = 0
+//@ ghost parsed int = 0
+//@ ghost decoded int = 0
+//@ ghost decErr error = nil
+//@ at call badgerWAL).entryPrefix
+//@ set prefix = $ret0
+//@ end
+//@ at call Txn).NewIterator
+//@ requires [C06 C03 scan-bounded-by-this-groups-prefix] $arg1.Prefix == prefix && $arg1.Reverse == *reverse && opened == 0
+//@ set opened = 1
+//@ end
+//@ at call badgerWAL).entryKey
+//@ set skKey = $ret0
+//@ set skIdx = $arg1
+//@ end
+//@ at call Iterator).Seek
+//@ requires [C06 C03 positioned-at-the-asked-index] opened == 1 && $arg1 == skKey && skIdx == *seekTo && positioned == 0
+//@ set positioned = 1
+//@ end
+//@ at call Iterator).Valid
+//@ requires [C06 validity-asked-after-positioning] positioned == 1
+//@ set valid = ite($ret0, 1, 0)
+//@ end
+//@ at call Item).Key
+//@ set landedKey = $ret0
+//@ end
+//@ at call badgerWAL).parseIndex
+//@ requires [C06 C03 index-parsed-from-the-key-found] valid == 1 && $arg1 == landedKey
+//@ set landedIdx = $ret0
+//@ set parsed = 1
+//@ end
+//@ at call Entry).Unmarshal
+//@ requires [C06 C03 decodes-into-the-callers-entry] $arg0 == *entry && *entry != nil && parsed == 1
+//@ set decoded = 1
+//@ set decErr = $ret0
+//@ end
+//@ requires [wal] this != nil && this.db != nil
+//@ ensures [C06 C03 nothing-there-is-an-error] valid == 0 ==> ret1 == entryNotFoundErr
+//@ ensures [C06 C03 index-of-the-key-found] valid == 1 ==> parsed == 1 && ret0 == landedIdx
+//@ ensures [C06 C03 entry-decoded-when-asked] valid == 1 ==> (entry != nil ==> decoded == 1 && ret1 == decErr) && (entry == nil ==> decoded == 0 && isnil(ret1))
 //@ modifies fields(entry)
+
+//@ func (*storage/wal.badgerWAL).seekEntry$1
+//@ inline
+//@ props C06 C03
+//@ func (*storage/wal.badgerWAL).seekEntry$1$1
+//@ inline
+//@ props C06 C03
+
+// the first index (reference: ents[0].Index + 1 - the first stored key is the marker at the snapshot index): one past the cached
+// snapshot's index when a non-empty snapshot is cached, else the cached first index, else one past the smallest stored key,
+// which is then cached; a failed lookup caches nothing (index 2^64-1 aside: one past it does not exist)
 //@ func (*storage/wal.badgerWAL).FirstIndex
 //@ props C06 C03
-//@ assume
+//@ safety UNCLAIMED
+//@ ghost loads int = 0
+//@ ghost snapHit int = 0
+//@ ghost snapIdx uint64 = 0
+//@ ghost firstHit int = 0
+//@ ghost firstV uint64 = 0
+//@ ghost sought int = 0
+//@ ghost soughtIdx uint64 = 0
+//@ ghost soughtErr error = nil
+//@ ghost stored int = 0
+//@ at call (*sync.Map).Load
+//@ assume [the three cache keys are different strings (package-level variables that nothing assigns)] cacheSnapshotKey != cacheLastIndexKey && cacheFirstIndexKey != cacheLastIndexKey && cacheSnapshotKey != cacheFirstIndexKey
+//@ requires [C06 C03 snapshot-slot-then-first-index-slot] (loads == 0 && $arg1.(string) == cacheSnapshotKey) || (loads == 1 && snapHit == 0 && $arg1.(string) == cacheFirstIndexKey)
+//@ set snapHit = ite(loads == 0 && $ret1 && istype($ret0, *raftpb.Snapshot) && $ret0.(*raftpb.Snapshot).Metadata.Index != 0, 1, snapHit)
+//@ set snapIdx = ite(loads == 0, $ret0.(*raftpb.Snapshot).Metadata.Index, snapIdx)
+//@ set firstHit = ite(loads == 1 && $ret1 && istype($ret0, uint64), 1, firstHit)
+//@ set firstV = ite(loads == 1, $ret0.(uint64), firstV)
+//@ set loads = loads + 1
+//@ end
+//@ at call badgerWAL).seekEntry
+//@ requires [C06 C03 smallest-stored-key] snapHit == 0 && firstHit == 0 && loads == 2 && $arg0 == this && $arg1 == nil && $arg2 == 0 && !$arg3 && sought == 0
+//@ set sought = 1
+//@ set soughtIdx = $ret0
+//@ set soughtErr = $ret1
+//@ end
+//@ at call (*sync.Map).Store
+//@ requires [C06 C03 caches-what-it-answers] sought == 1 && isnil(soughtErr) && $arg1.(string) == cacheFirstIndexKey && istype($arg2, uint64) && (soughtIdx < 18446744073709551615 ==> $arg2.(uint64) == soughtIdx + 1) && stored == 0
+//@ set stored = 1
+//@ end
+//@ requires [wal] this != nil && this.db != nil && this.cache != nil
+//@ ensures [C06 C03 cached-snapshot-decides] snapHit == 1 ==> (snapIdx < 18446744073709551615 ==> ret0 == snapIdx + 1) && isnil(ret1) && sought == 0 && stored == 0
+//@ ensures [C06 C03 then-the-cached-first-index] snapHit == 0 && firstHit == 1 ==> ret0 == firstV && isnil(ret1) && sought == 0 && stored == 0
+//@ ensures [C06 C03 else-one-past-the-smallest-stored-key] snapHit == 0 && firstHit == 0 ==> sought == 1 && (isnil(soughtErr) ==> (soughtIdx < 18446744073709551615 ==> ret0 == soughtIdx + 1) && isnil(ret1) && stored == 1) && (!isnil(soughtErr) ==> ret1 == soughtErr && stored == 0)
 //@ modifies * except type badgerWAL.cache; type badgerWAL.db; type badgerWAL.groupId; mem[raftpb.Entry]
 // compaction scan (the real closure runs in place over the assumed Badger iterator, like the range scan of Entries): every key
 // the scan meets below the bound is queued for deletion, and the scan stops only when the iterator is exhausted or the bound is
 // reached (a scan that gives up early leaves entries in front of the snapshot marker: after a reopen the first index is wrong)
-//@ func (*storage/wal.badgerWAL).deleteKeys
+//@ func (*github.com/dgraph-io/badger/v2.WriteBatch).Delete
 //@ props C06 C03
 //@ assume
 //@ modifies nothing
+// every listed key is queued for deletion in the given batch, in order, under exactly its own bytes; nothing else is queued
+//@ func (*storage/wal.badgerWAL).deleteKeys
+//@ props C06 C03
+//@ safety UNCLAIMED
+//@ ghost deleted int = 0
+//@ at call WriteBatch).Delete
+//@ requires [C06 C03 deletes-the-listed-keys-in-order] $arg0 == batch && 0 <= deleted && deleted < len(keys) && string($arg1) == keys[deleted]
+//@ set deleted = deleted + 1
+//@ end
+//@ requires [wal] batch != nil
+//@ ensures [C06 C03 every-listed-key-deleted] isnil(ret) ==> deleted == len(keys)
+//@ modifies nothing
+//@ loop 1
+//@ invariant [C06 deleted-so-far] deleted == rangeindex + 1
 //@ func (*storage/wal.badgerWAL).deleteEntriesUntilIndex
 //@ props C06 C03
 //@ safety UNCLAIMED
@@ -387,13 +588,116 @@ var _ raftpb.Entry
 //   Term(i): i < offset -> ErrCompacted; nothing stored at or below i's position -> ErrUnavailable; an entry found above i means
 //   i was compacted away; otherwise the stored entry's term.
 //   InitialState: the stored hard state, and the configuration of the stored snapshot.
+//@ func (*github.com/coreos/etcd/raft/raftpb.HardState).Unmarshal
+//@ props C06
+//@ assume
+//@ modifies fields(m)
+//@ func (*github.com/coreos/etcd/raft/raftpb.Snapshot).Unmarshal
+//@ props C06
+//@ assume
+//@ modifies fields(m)
+// the stored hard state: read under this group's hard-state key and decoded; a group that never stored one has the empty hard
+// state (not an error: InitialState of a new group), every other read or decode error surfaces
 //@ func (*storage/wal.badgerWAL).HardState
 //@ props C06
-//@ assume
+//@ safety UNCLAIMED
+//@ ghost hsKey []byte = nil
+//@ ghost got int = 0
+//@ ghost getErr error = nil
+//@ ghost decoded int = 0
+//@ ghost decErr error = nil
+//@ at call badgerWAL).hardStateKey
+//@ set hsKey = $ret0
+//@ end
+//@ at call Txn).Get
+//@ requires [C06 reads-this-groups-hard-state] $arg1 == hsKey && got == 0
+//@ set got = 1
+//@ set getErr = $ret1
+//@ end
+//@ at call HardState).Unmarshal
+//@ requires [C06 decoded-once-after-a-successful-read] got == 1 && isnil(getErr) && decoded == 0
+//@ set decoded = 1
+//@ set decErr = $ret0
+//@ end
+//@ requires [wal] this != nil && this.db != nil
+//@ ensures [C06 never-stored-is-empty-not-an-error] got == 1 && !isnil(getErr) && getErr == badger.ErrKeyNotFound ==> isnil(ret1) && ret0.Term == 0 && ret0.Vote == 0 && ret0.Commit == 0 && decoded == 0
+//@ ensures [C06 read-errors-surface] got == 1 && !isnil(getErr) && getErr != badger.ErrKeyNotFound ==> ret1 == getErr
+//@ ensures [C06 stored-hard-state-is-decoded] got == 1 && isnil(getErr) ==> decoded == 1 && (decErr != badger.ErrKeyNotFound ==> ret1 == decErr)
 //@ modifies nothing
+
+//@ func (*storage/wal.badgerWAL).HardState$1
+//@ inline
+//@ props C06
+//@ func (*storage/wal.badgerWAL).HardState$1$1
+//@ inline
+//@ props C06
+
+// the stored snapshot: the cached one when a non-empty snapshot is cached, else read under this group's snapshot key and decoded;
+// a group without a snapshot has the empty snapshot, not an error
 //@ func (*storage/wal.badgerWAL).Snapshot
 //@ props C06
-//@ assume
+//@ safety UNCLAIMED
+//@ ghost snapHit int = 0
+//@ ghost cachedSnap *raftpb.Snapshot = nil
+//@ ghost ssKey []byte = nil
+//@ ghost got int = 0
+//@ ghost getErr error = nil
+//@ ghost decoded int = 0
+//@ ghost decErr error = nil
+//@ at call (*sync.Map).Load
+//@ requires [C06 reads-the-snapshot-slot] $arg1.(string) == cacheSnapshotKey && got == 0
+//@ set snapHit = ite($ret1 && istype($ret0, *raftpb.Snapshot) && $ret0.(*raftpb.Snapshot).Metadata.Index != 0, 1, 0)
+//@ set cachedSnap = $ret0.(*raftpb.Snapshot)
+//@ end
+//@ at call badgerWAL).snapshotKey
+//@ set ssKey = $ret0
+//@ end
+//@ at call Txn).Get
+//@ requires [C06 reads-this-groups-snapshot] snapHit == 0 && $arg1 == ssKey && got == 0
+//@ set got = 1
+//@ set getErr = $ret1
+//@ end
+//@ at call Snapshot).Unmarshal
+//@ requires [C06 decoded-once-after-a-successful-read] got == 1 && isnil(getErr) && decoded == 0
+//@ set decoded = 1
+//@ set decErr = $ret0
+//@ end
+//@ requires [wal] this != nil && this.db != nil && this.cache != nil
+//@ ensures [C06 cached-snapshot-is-the-answer] snapHit == 1 ==> got == 0 && isnil(ret1) && ret0.Metadata.Index == old(cachedSnap.Metadata.Index) && ret0.Metadata.Term == old(cachedSnap.Metadata.Term) && ret0.Data == old(cachedSnap.Data)
+//@ ensures [C06 no-snapshot-is-empty-not-an-error] snapHit == 0 && !isnil(getErr) && getErr == badger.ErrKeyNotFound ==> got == 1 && isnil(ret1) && ret0.Metadata.Index == 0 && ret0.Metadata.Term == 0 && decoded == 0
+//@ ensures [C06 read-errors-surface] snapHit == 0 && !isnil(getErr) && getErr != badger.ErrKeyNotFound ==> ret1 == getErr
+//@ ensures [C06 stored-snapshot-is-decoded] snapHit == 0 && isnil(getErr) ==> got == 1 && decoded == 1 && (decErr != badger.ErrKeyNotFound ==> ret1 == decErr)
+//@ modifies * except type badgerWAL.cache; type badgerWAL.db; type badgerWAL.groupId
+
+//@ func (*storage/wal.badgerWAL).Snapshot$1
+//@ inline
+//@ props C06
+//@ func (*storage/wal.badgerWAL).Snapshot$1$1
+//@ inline
+//@ props C06
+
+// what raft starts from: the stored hard state and the membership recorded in the stored snapshot; an error of either read
+// surfaces (a node must not start from an empty state because its disk could not be read)
+//@ func (*storage/wal.badgerWAL).InitialState
+//@ props C06
+//@ safety UNCLAIMED
+//@ ghost hs raftpb.HardState = any
+//@ ghost hsErr error = nil
+//@ ghost ssErr error = nil
+//@ ghost reads int = 0
+//@ at call badgerWAL).HardState
+//@ requires [C06 hard-state-first] $arg0 == this && reads == 0
+//@ set hsErr = $ret1
+//@ set reads = 1
+//@ end
+//@ at call badgerWAL).Snapshot
+//@ requires [C06 then-the-snapshot] $arg0 == this && reads == 1 && isnil(hsErr)
+//@ set ssErr = $ret1
+//@ set reads = 2
+//@ end
+//@ requires [wal] this != nil && this.db != nil && this.cache != nil
+//@ ensures [C06 read-errors-surface] (!isnil(hsErr) ==> ret2 == hsErr) && (isnil(hsErr) && !isnil(ssErr) ==> ret2 == ssErr)
+//@ ensures [C06 both-read] isnil(ret2) ==> reads == 2 && isnil(hsErr) && isnil(ssErr)
 //@ modifies * except type badgerWAL.cache; type badgerWAL.db; type badgerWAL.groupId
 //@ func (*storage/wal.badgerWAL).Entries
 //@ props C06
